@@ -76,6 +76,7 @@ class PipeWorld:
         self.H = CtorHarness(ctx)
         self.ip = ip = self.H.ip
         ip.max_depth = 400  # the whole pipeline is one nest of calls
+        ip.eager_generators = True  # traversal / extraction helpers met inside the pipeline
         import sys
 
         if sys.getrecursionlimit() < 20000:
@@ -145,6 +146,45 @@ class PipeWorld:
         self.functions = {}
         # isinstance of plain python numbers against numbers.* in exproperators
         ip.overrides["is_cellwise_constant"] = self._is_cellwise_constant
+        self.install_type_queries()
+
+    # ------------------------------------------------------------------ type queries over an expression
+    def nodes_of(self, e):
+        """every node below e (abstract tensors by their tags, container objects by their attributes), each once"""
+        seen, out, stack = set(), [], [e]
+        while stack:
+            t = stack.pop()
+            if id(t) in seen:
+                continue
+            seen.add(id(t))
+            if isinstance(t, T):
+                out.append(t)
+                stack.extend(reversed(t.tags.get("ufl_operands", ())))
+            elif isinstance(t, Obj) and "ufl_operands" in t.attrs:
+                out.append(t)
+                stack.extend(reversed(t.attrs["ufl_operands"]))
+        return out
+
+    def class_of(self, t):
+        name = t.tags.get("ufl_class") if isinstance(t, T) else t.attrs.get("ufl_class")
+        if name is None:
+            return None
+        try:
+            return self.ctx.tm.get(name).cls
+        except Exception:
+            return None
+
+    def _is_a(self, t, k):
+        ks = k if isinstance(k, (tuple, list)) else (k,)
+        c = self.class_of(t)
+        return c is not None and any(c is kk or (hasattr(kk, "name") and c.is_subclass_of(kk.name)) for kk in ks)
+
+    def install_type_queries(self):
+        """ufl.algorithms.analysis type queries (generators over traversals in the source) as structural walks"""
+        ov = self.ip.overrides
+        ov["has_exact_type"] = lambda e, k: any(self.class_of(t) is k for t in self.nodes_of(e))
+        ov["has_type"] = lambda e, k: any(self._is_a(t, k) for t in self.nodes_of(e))
+        ov["extract_type"] = lambda e, k: {t for t in self.nodes_of(e) if self._is_a(t, k)}
 
     # ------------------------------------------------------------------ terminals
     def geometry(self, name):
